@@ -47,28 +47,27 @@ Definition code_of (r : hres) : N :=
 (* for the checker only acceptance matters *)
 Definition res_of (n : N) : hres := if n =? 0 then HOk else HVersionMismatch.
 
-Definition handshake_verdict (c : hcase) : nat :=
+Definition handshake_verdict (c : hcase) : N :=
   match c with
   | HSide k side inp sent res =>
       let i := bytes_of inp in
       let (msent, mres) := if side =? 0 then client go_conf i else server go_conf i in
       let expects := if side =? 0 then client_expects (conf_of k) else server_expects (conf_of k) in
-      Nat.add
-        (if consts_match k && bytes_eqb msent (bytes_of sent) && (code_of mres =? res)
-         then 0%nat else 1%nat)
-        (if check_side expects i (res_of res) then 0%nat else 2%nat)
+      (if consts_match k && bytes_eqb msent (bytes_of sent) && (code_of mres =? res)
+       then 0 else 1)
+      + (if check_side expects i (res_of res) then 0 else 2)
   | HJoint k fsc fcs rc rs =>
       let (mc, ms) := joint go_conf go_conf fsc fcs in
-      Nat.add
-        (if consts_match k && (code_of mc =? rc) && (code_of ms =? rs) then 0%nat else 1%nat)
-        (if check_joint (conf_of k) fsc fcs (res_of rc, res_of rs) then 0%nat else 2%nat)
+      (if consts_match k && (code_of mc =? rc) && (code_of ms =? rs) then 0 else 1)
+      + (if check_joint (conf_of k) fsc fcs (res_of rc, res_of rs) then 0 else 2)
   end.
 
-Fixpoint handshake_failures (i : nat) (cs : list hcase) : list (nat * nat) :=
+(* Index and verdict are printed as N: the case files keep N_scope open, and
+   the driver reads plain "(index, verdict)" pairs. *)
+Fixpoint handshake_failures (i : N) (cs : list hcase) : list (N * N) :=
   match cs with
   | [] => []
-  | c :: t => match handshake_verdict c with
-              | O => handshake_failures (S i) t
-              | v => (i, v) :: handshake_failures (S i) t
-              end
+  | c :: t => let v := handshake_verdict c in
+              if v =? 0 then handshake_failures (N.succ i) t
+              else (i, v) :: handshake_failures (N.succ i) t
   end.
